@@ -19,6 +19,7 @@ SHARD = 150
 COQ_TARGETS = ['theories/Mux/MuxCorr.vo']
 CTYPE = 'muxcase'
 CHECKER = 'mux_check'
+RAISED_IS_FAILURE = True      # see main.safe_oracle
 
 
 def generate(rng, tier):
